@@ -193,7 +193,54 @@ pub fn c09_worker(args: &Args, w: &Worker) -> i32 {
             }
         }
     }
+    // whole games with the cache kept across positions
+    selfplay(w, &args.tier, &mut idx, &|w, c, pos, out, ply| {
+        w.count("searches", 1);
+        w.count("searches_on_a_used_cache", u64::from(ply > 0));
+        if let Some(why) = judge_go(out, &searchrun::legal_uci(pos)) {
+            let mut r = c.json();
+            if let J::Obj(v) = &mut r {
+                v.push(("selfplay_ply".into(), i(ply as u64)));
+            }
+            w.violation(&format!("{}|selfplay", c.sig()), &format!("self-play game from {} after {:?} (cache kept), search #{}: {why}", c.fen, c.history, ply + 1), &r);
+        }
+    });
     w.done()
+}
+
+/// Game sessions: the engine plays against itself from a start position, one `go depth d` per
+/// ply, and the cache is kept for the whole game (as in a real UCI session, where it is never
+/// cleared). Every search is handed to `judge` with the position it was started from.
+pub fn selfplay(w: &Worker, tier: &str, idx: &mut usize, judge: &dyn Fn(&Worker, &Case, &Pos, &Out, usize)) {
+    let thorough = tier == "thorough";
+    let fens: Vec<String> = include_str!("bench_fens.txt").lines().map(|l| l.trim().to_string()).filter(|l| !l.is_empty()).collect();
+    let (nstarts, plies, depth) = if thorough { (fens.len(), 40usize, 4u128) } else { (32, 16usize, 4u128) };
+    let fresh = Opts { clear_cache: true, observe: false, neutral: false };
+    let keep = Opts { clear_cache: false, observe: false, neutral: false };
+    for fen in fens.iter().take(nstarts) {
+        *idx += 1;
+        if !w.mine(*idx) {
+            continue;
+        }
+        let mut history: Vec<String> = vec![];
+        for ply in 0..plies {
+            let Ok((board, pos, _)) = searchrun::open(fen, &history) else { break };
+            if pos.legal_moves().is_empty() || pos.halfmove >= 100 {
+                break;
+            }
+            let l = Limits { depth: Some(depth), ..Default::default() };
+            let c = Case { fen: fen.clone(), history: history.clone(), limits: l, max_depth: Some(depth as u8), cut: Cut::ClockNever };
+            let out = searchrun::run(&board, &c, if ply == 0 { &fresh } else { &keep });
+            w.count("selfplay_searches", 1);
+            judge(w, &c, &pos, &out, ply);
+            let Some(best) = out.best.clone() else { break };
+            if !searchrun::legal_uci(&pos).iter().any(|m| *m == best) {
+                break;
+            }
+            history.push(best);
+        }
+        w.count("selfplay_games", 1);
+    }
 }
 
 pub fn c14_worker(args: &Args, w: &Worker) -> i32 {
@@ -269,7 +316,38 @@ pub fn c14_worker(args: &Args, w: &Worker) -> i32 {
             }
         }
     }
+    // whole games with the cache kept across positions: stale entries of earlier searches
+    selfplay(w, &args.tier, &mut idx, &|w, c, pos, out, ply| {
+        w.count("logs_checked", 1);
+        w.count("info_lines_checked", out.log.iter().filter(|l| l.starts_with("info")).count() as u64);
+        if out.panicked.is_some() {
+            return; // judged by C09
+        }
+        let bad = infogrammar::check_log(&out.log, pos, Some(4));
+        if let Some(first) = bad.first() {
+            let mut r = c.json();
+            if let J::Obj(v) = &mut r {
+                v.push(("selfplay_ply".into(), i(ply as u64)));
+            }
+            w.violation(&format!("{}|selfplay", c.sig()), &format!("self-play game from {} after {:?} (cache kept for the whole game), search #{}: {first}", c.fen, c.history, ply + 1), &r);
+        }
+    });
     w.done()
+}
+
+
+/// Re-runs the self-play game of `case` (its history is the game so far) with the cache kept
+/// and returns the outcome of the last search together with its root position.
+fn replay_selfplay(case: &Case) -> Option<(Out, Pos)> {
+    let mut last = None;
+    for k in 0..=case.history.len() {
+        let h = case.history[..k].to_vec();
+        let (board, pos, _) = searchrun::open(&case.fen, &h).ok()?;
+        let c = Case { fen: case.fen.clone(), history: h, limits: case.limits.clone(), max_depth: case.max_depth, cut: case.cut };
+        let out = searchrun::run(&board, &c, &Opts { clear_cache: k == 0, observe: false, neutral: false });
+        last = Some((out, pos));
+    }
+    last
 }
 
 pub fn replay_c09(doc: &J) -> i32 {
@@ -279,6 +357,24 @@ pub fn replay_c09(doc: &J) -> i32 {
     }
     let Some(case) = Case::from_json(r) else { return 2 };
     searchrun::quiet_panics();
+    if r.get("selfplay_ply").is_some() {
+        let a = replay_selfplay(&case).map(|(o, p)| judge_go(&o, &searchrun::legal_uci(&p)));
+        let b = replay_selfplay(&case).map(|(o, p)| judge_go(&o, &searchrun::legal_uci(&p)));
+        if a != b {
+            eprintln!("MACHINERY: replay not reproducible");
+            return 2;
+        }
+        return match a.flatten() {
+            Some(why) => {
+                println!("violation reproduced: {why}");
+                1
+            }
+            None => {
+                println!("no violation");
+                0
+            }
+        };
+    }
     let Ok((board, pos, _)) = searchrun::open(&case.fen, &case.history) else { return 2 };
     let legal = searchrun::legal_uci(&pos);
     let rounds = r.get("consecutive").and_then(|x| x.int()).unwrap_or(1);
@@ -314,6 +410,25 @@ pub fn replay_c14(doc: &J) -> i32 {
     }
     let Some(case) = Case::from_json(r) else { return 2 };
     searchrun::quiet_panics();
+    if r.get("selfplay_ply").is_some() {
+        let f = |x: Option<(Out, Pos)>| x.map(|(o, p)| infogrammar::check_log(&o.log, &p, case.limits.depth.map(|d| d as i64)));
+        let a = f(replay_selfplay(&case));
+        let b = f(replay_selfplay(&case));
+        if a != b {
+            eprintln!("MACHINERY: replay not reproducible");
+            return 2;
+        }
+        return match a {
+            Some(v) if !v.is_empty() => {
+                println!("violation reproduced: {}", v[0]);
+                1
+            }
+            _ => {
+                println!("no violation");
+                0
+            }
+        };
+    }
     let Ok((board, pos, _)) = searchrun::open(&case.fen, &case.history) else { return 2 };
     let full = if case.limits.nodes.is_none() && !case.limits.has_time() { case.limits.depth.map(|d| d as i64) } else { None };
     let mut verdicts = vec![];
